@@ -159,4 +159,44 @@ PROPS = {
         assumptions=ENC,
         trusted_base=["assumed raise-sets of PyYAML, docutils, Jinja2, pathlib (DESIGN §6)"],
     ),
+    "C15": dict(
+        level="other",
+        contracts=[],
+        flow=["checks.flow_frame:run"],
+        harness=True,
+        explanation=(
+            "PROVED on the AST of the whole package (one obligation per site, against the committed ledger of sites and "
+            "their lemmas): (no-alias) no owned container field that is mutated in place (_level_to_section, "
+            "_heading_slugs, _inventories, enable_extensions, sub_references, md_env, option_spec) is aliased outside the "
+            "listed read-only / by-design sites; (shared-write) every write through a shared holder (configuration, "
+            "docutils settings, class-level option specs and translator hooks, docutils' role table) is one of the "
+            "listed idempotent or restored-in-finally sites, and the restoring statement is still inside its `finally`; "
+            "(param-frame) merge_file_level copies the global config and never stores into it nor hands it to a mutating "
+            "callee; (ambient-read) no uuid/random/time/environ read except the recorded uuid4 label (known finding).  "
+            "Equality of -j1 and -jN Sphinx builds over all worker schedules is NOT decidable by contracts (process "
+            "scheduling, Sphinx's environment merge); the frame argument is the contribution and one project is compared "
+            "as a BOUNDED stand-in, together with random parse histories on the docutils front end vs fresh-process "
+            "output and reuse of the configuration object."
+        ),
+        assumptions=ENC[:1],
+        trusted_base=["syntactic classification of stores by attribute-chain names (DESIGN §7.3)"],
+    ),
+    "C20": dict(
+        level="other",
+        contracts=[],
+        flow=["checks.flow_frame:run"],
+        harness=True,
+        explanation=(
+            "PROVED on the AST: (file-read) every call of a file/URL reading API in the package is dominated, in its "
+            "function, by the unconditional `if not ...file_insertion_enabled: raise` refusal at function entry, or is a "
+            "listed configuration-driven read (fetch_inventory, the inventory CLI); (raw-removal) in Parser.parse, under "
+            "`not raw_enabled`, every node of document.traverse(nodes.raw) is replaced by the direct result of "
+            "document.reporter.warning(...) - a system_message, never None.  That the traversal reaches every raw node and "
+            "the refusals of docutils' own directives (raw, csv-table, include inside eval-rst) are docutils behaviour "
+            "(assumed).  BOUNDED: every construct able to carry raw markup or a file path, with sentinels, under "
+            "raw_enabled x file_insertion_enabled through the docutils publisher (doctree and written HTML)."
+        ),
+        assumptions=ENC[:1],
+        trusted_base=["docutils traverse/findall returns all descendants of the class; docutils directives honour the shared settings"],
+    ),
 }
